@@ -146,6 +146,11 @@ def check_c01(tier, seed, replay=None, selftest=False):
     jobs = hash_jobs(seed, 24 if tier == "quick" else 400)
     outs = run_jobs(jobs, exe, "TraceHash")
     nb, ne = collect(chk, outs, props)
+    # the lane scheduler called directly: raw chaining values of whole-block jobs (TraceJob)
+    jjobs = gen_hash.job_jobs(random.Random(seed + 5), 10 if tier == "quick" else 150)
+    jouts = run_jobs(jjobs, build.build_driver("job", JOB_SRCS), "TraceJob")
+    b2, e2 = collect(chk, jouts, props, marker="JReset")
+    nb, ne, jobs, outs = nb + b2, ne + e2, jobs + jjobs, outs + jouts
     _finish_traces(chk, jobs, outs, nb, ne,
                    "behaviour = one manager's history (random + state-class-directed generators, all 28 family instances "
                    "+ isal_/legacy entry points); evaluations = public-call events validated by TLC against HashAPI; "
@@ -420,7 +425,7 @@ def gate_entries(exe):
     rc, err = verif.run_driver(exe, "gatelist\n", os.path.join(d, "t.nd"))
     if rc:
         raise verif.MachineryError("gatelist failed: " + err)
-    return [json.loads(l) for l in open(os.path.join(d, "t.nd"))]
+    return [e for e in (json.loads(l) for l in open(os.path.join(d, "t.nd"))) if e.get("e") == "GateEntry"]
 
 
 def exported_isal(variant):
@@ -566,7 +571,8 @@ def check_c17(tier, seed, replay=None, selftest=False):
         collect(chk, outs, props, marker="SReset")
         chk.cov.update({"states": 1, "transitions": 1, "traces_validated_against_impl": 1, "samples": [replay]})
         return chk.finish()
-    model_check(chk, [("SelfTest", "SelfTest_2.cfg", 8, 600), ("SelfTest", "SelfTest_3.cfg", 8, 600)] +
+    model_check(chk, [("SelfTest", "SelfTest_2.cfg", 8, 600), ("SelfTest", "SelfTest_3.cfg", 8, 600),
+                      ("SelfTestGeneric", "SelfTestGeneric.cfg", 8, 600)] +
                 ([("SelfTest", "SelfTest_4.cfg", 8, 900)] if tier != "quick" else []))
     rng = random.Random(seed * 977 + 17)
     beh = gen_self.systematic(2) + gen_self.randoms(rng, 150 if tier == "quick" else 3000)
@@ -648,6 +654,7 @@ def isa_part(chk, exe, tier):
 
 
 # ------------------------------------------------------------------------------------------ machine contracts
+JOB_SRCS = ["main.c", "core.c", "vcall.S", "drv_job.c"]
 def machine_mix(seed, tier, with_dump=False, small=False):
     """A broad mix of behaviours over every driver: list of (exe, trace_spec, jobs). The machine-level contracts
     (Machine.tla) are conjoined to every action of every trace spec, so every event of the mix is an observation."""
@@ -668,10 +675,12 @@ def machine_mix(seed, tier, with_dump=False, small=False):
         for j in ajobs:
             j["behaviours"] = [["dump 1"]] + j["behaviours"]
     out.append((aexe, "TraceAes", ajobs))
+    jexe = build.build_driver("job", JOB_SRCS)
+    out.append((jexe, "TraceJob", gen_hash.job_jobs(rng, (4 if small else 8) * k)))
     mexe = build.build_driver("mh", MH_SRCS, wraps=MH_WRAPS)
     mj = {}
     for alg in ("sha1", "sha256", "murmur"):
-        mj.update(gen_mh.mh_jobs(rng, (3 if small else 5) * k, alg=alg) if False else gen_mh.mh_jobs(rng, alg, (3 if small else 5) * k))
+        mj.update(gen_mh.mh_jobs(rng, alg, (3 if small else 5) * k))
     mj.update(gen_mh.rh_jobs(rng, (4 if small else 6) * k))
     out.append((mexe, "TraceMh", merge_jobs(mj, key=lambda n: n, driver="mh")))
     return out
@@ -685,7 +694,7 @@ def run_mix(chk, mix, props, extra_env=None):
             for j in jobs:
                 j.setdefault("env", {}).update(extra_env)
         outs = run_jobs(jobs, exe, spec)
-        b, e = collect(chk, outs, props, marker="HReset" if spec == "TraceHash" else "Mark")
+        b, e = collect(chk, outs, props, marker="HReset" if spec == "TraceHash" else "JReset" if spec == "TraceJob" else "Mark")
         nb += b
         ne += e
         alljobs += jobs
@@ -694,16 +703,16 @@ def run_mix(chk, mix, props, extra_env=None):
 
 
 def entry_points_called(outs):
-    """distinct (event kind, family/alg) combinations observed = distinct family entry points exercised"""
+    """library symbols the drivers called through the trampoline (each trace ends with a Mark listing them)"""
     seen = set()
     for o in outs:
         with open(o["trace"]) as f:
             for line in f:
-                try:
-                    e = json.loads(line)
-                except Exception:
-                    continue
-                seen.add((e.get("e"), e.get("alg", ""), e.get("fam", ""), e.get("bits", ""), e.get("dir", ""), e.get("nt", ""), e.get("exp", "")))
+                if '"id":"called"' in line:
+                    try:
+                        seen.update(json.loads(line)["syms"])
+                    except Exception:
+                        pass
     return seen
 
 
@@ -731,7 +740,13 @@ def machine_check(pid, tier, seed, replay, props, rule, with_dump=False, extra=N
     chk.cov["distinct_nontrivial"] = len({hashlib.sha1("\n".join(b).encode()).hexdigest() for j in jobs for b in j["behaviours"]})
     chk.cov["rule"] = rule
     chk.cov["samples"] = [{"job": j["name"], "behaviour": j["behaviours"][-1][:6]} for j in jobs[:4]]
-    chk.cov["distinct_entry_point_variants_called"] = len(eps)
+    chk.cov["distinct_library_entry_points_called"] = len(eps)
+    if pid == "C19":
+        lib = build.build_lib("def")
+        T = sorted({l.split()[2] for l in open(os.path.join(lib, "syms.txt")) if len(l.split()) == 3 and l.split()[1] == "T"})
+        T = [t for t in T if "slver" not in t and t != "TABLE"]
+        chk.cov["exported_text_symbols"] = len(T)
+        chk.cov["entry_points_not_called_by_any_driver"] = [t for t in T if t not in eps][:400]
     chk.cov["traces_validated_against_impl"] = nb
     chk.assumptions += ["observations are made by the call trampoline harness/vcall.S on the executions the specifications' call spaces select; "
                         "this is exploration, not proof", "host CPU executes every family"]
